@@ -311,3 +311,35 @@ def observe(obj, extra=(), _depth=0, _seen=None, light=False):
                     if hasattr(x, "__dict__") and not isinstance(x, (type, enum.Enum)) and not callable(x):
                         raised += observe(x, extra, _depth + 1, _seen, light)
     return raised
+
+
+def kept_results(s, label, thunks, obs=None):
+    """The caller keeps what a call returned.  `thunks`: list of (case, callable); every callable is called once, in order, and its
+    result is *kept* (nobody writes into it); after the last call every kept result must still be what it was right after its own
+    call (a library that hands out its live working object, or one shared result object, fails here)."""
+    from .report import exc_sig
+    from . import canon as _canon
+
+    if obs is None:
+        obs = lambda r: _canon.digest(r)  # noqa: E731
+    kept = []
+    for case, th in thunks:
+        try:
+            r = th()
+            kept.append((case, r, obs(r)))
+        except Exception as e:  # noqa: BLE001
+            s.violation(f"exception_in_kept_results:{label}:" + exc_sig(e), case, repr(e))
+    changed = 0
+    for i, (case, r, o) in enumerate(kept):
+        now = None
+        try:
+            now = obs(r)
+        except Exception as e:  # noqa: BLE001
+            now = "raises:" + type(e).__name__
+        if now != o:
+            changed += 1
+            s.violation(f"earlier_result_changed_by_a_later_call:{label}", {**case, "position_in_sequence": i, "of": len(kept)},
+                        "a result the caller kept (and did not touch) is different after later calls of the library")
+        s.case(nontrivial=True, calls=1, outcome=label, sample=case if len(s.samples) < 1 else None)
+    distinct = len({id(r) for _, r, _ in kept if not isinstance(r, (int, bool, str, bytes, float, type(None)))})
+    s.extra.setdefault("kept_results", {})[label] = {"calls": len(kept), "distinct_result_objects": distinct, "changed": changed}
